@@ -40,6 +40,34 @@ def run(ctx):
     for k in ("traces", "evaluations", "states", "transitions"):
         res[k] += part[k]
     res["scope"]["rank0_histories"] = len(r0)
+    # any leaf default (zero, non-zero, fractional, float zero): histories of writes through fresh references and kept handles, reads of unwritten points
+    dc = []
+    rng = ctx.rng
+    for _ in range(600 if ctx.quick else 8000):
+        depth = rng.choice([1, 2])
+        steps = []
+        refs = []
+        for n in range(1, rng.randint(3, 7) + 1):
+            pt = [rng.randint(0, 2) for _ in range(depth)]
+            op = rng.choice(["get", "getdflt", "ref", "write", "write", "hwrite"])
+            if op == "hwrite" and not refs:
+                op = "write"
+            st = {"op": op, "pt": pt}
+            if op == "ref":
+                refs.append(n)
+            if op in ("write", "hwrite"):
+                kind = rng.choice(["assign", "add", "mul"])
+                st.update({"kind": kind, "w2": rng.choice([0, 2, 4]) if kind == "mul" else rng.choice([0, 1, 2, 3, 4, -2]), "wfloat": rng.choice([0, 1])})
+                if op == "hwrite":
+                    st["h"] = rng.choice(refs)
+            steps.append(st)
+        dc.append({"depth": depth, "dflt2": rng.choice([0, 0, 4, 1, 3]), "asfloat": rng.choice([0, 1]), "steps": steps})
+    part2 = family.run_family(ctx, "C03", dc, "harness.exec_dflt", "DefaultTrace.tla", "DefaultTrace.cfg", op_of=lambda c, lg, st: "dflt-history",
+                              where_of=lambda c, lg, st: f"tensor:depth{c['depth']}:dflt2={c['dflt2']}" + (":float" if c["asfloat"] else ""), name="C03_dflt")
+    res["violations"] += part2["violations"]
+    for k in ("traces", "evaluations", "states", "transitions"):
+        res[k] += part2[k]
+    res["scope"]["default_histories"] = len(dc)
     res["assumptions"] = ["start_pos legal per the documented precondition (position holds a coordinate <= the one searched; 0 always legal)",
                           "caller-supplied default (allocate=False, default=7) is what an absent point reads as; a stored explicit default reads as 0",
                           "raw (unowned) fibers at depth 1, deeper trees through tensors (an empty unowned fiber cannot know its depth)"]
@@ -47,6 +75,9 @@ def run(ctx):
 
 
 def replay(ctx, rec):
+    if rec.get("op") == "dflt-history":
+        from . import family
+        return family.replay_family(ctx, "C03", rec, "harness.exec_dflt", "DefaultTrace.tla", "DefaultTrace.cfg")
     if rec.get("op") == "rank0":
         from . import family
         return family.replay_family(ctx, "C03", rec, "harness.exec_rank0", "Rank0Trace.tla", "Rank0Trace.cfg")
